@@ -500,6 +500,12 @@ def run(repo: Repo, chk: Check, thorough: bool = False) -> None:
         raise AnalysisError('R15.7: no branch of _AnnotationStringParser.visit_Subscript keeps the slice unparsed any more')
     name_ok = attr_ok = False
     restricted: List[str] = []
+    from ..util import values_of as _values_of
+
+    def _compared(e: ast.AST) -> List[ast.AST]:
+        if isinstance(e, ast.Name):
+            return [v for v in _values_of(vs, e.id) if not (isinstance(v, ast.Constant) and v.value is None)]
+        return [e]
     for a in raw:
         facts = [(t, pol) for t, pol in cfv.dominating_tests(a) if pol]
         strs = {c.value for t, _ in facts for c in ast.walk(t) if isinstance(c, ast.Constant) and isinstance(c.value, str)}
@@ -509,12 +515,14 @@ def run(repo: Repo, chk: Check, thorough: bool = False) -> None:
             restricted.append(norm(facts[-1][0])[:80] if facts else '?')
             continue
         for t in cmps:
-            if isinstance(t.left, ast.Attribute) and t.left.attr == 'id':
-                name_ok = True
-            if isinstance(t.left, ast.Attribute) and t.left.attr == 'attr':
-                attr_ok = True
-            if isinstance(t.left, ast.Subscript) and norm(t.left.slice) == '-1':
-                name_ok = attr_ok = True
+            # what is compared with 'Literal': `value.id` / `value.attr`, directly or through a local that receives them (`subscripted_name`)
+            for lv in _compared(t.left):
+                if isinstance(lv, ast.Attribute) and lv.attr == 'id':
+                    name_ok = True
+                if isinstance(lv, ast.Attribute) and lv.attr == 'attr':
+                    attr_ok = True
+                if isinstance(lv, ast.Subscript) and norm(lv.slice) == '-1':
+                    name_ok = attr_ok = True
     if not (name_ok and attr_ok) and not restricted:
         raise AnalysisError('R15.7: the test recognising Literal[...] in visit_Subscript has an unknown shape (re-confirm by hand)')
     chk.ob('R15.7', 'astutils._AnnotationStringParser.visit_Subscript :: Literal[...] is recognised under any qualifier', name_ok and attr_ok,
@@ -525,7 +533,7 @@ def run(repo: Repo, chk: Check, thorough: bool = False) -> None:
     ann_branch = False
     for n in vs.walk():
         if isinstance(n, ast.Compare) and len(n.ops) == 1 and isinstance(n.ops[0], ast.Eq) and const_str(n.comparators[0]) == 'Annotated' and \
-                isinstance(n.left, ast.Attribute) and n.left.attr in ('id', 'attr'):
+                any(isinstance(lv, ast.Attribute) and lv.attr in ('id', 'attr') for lv in _compared(n.left)):
             ann_branch = True
         if isinstance(n, ast.Compare) and isinstance(n.left, ast.Subscript) and norm(n.left.slice) == '-1' and any(const_str(c) == 'Annotated' for c in n.comparators):
             ann_branch = True
